@@ -590,9 +590,9 @@ func checkFanout(c *Ctx, cfg fanoutCfg) {
 	r, p := c.R, c.P
 	pre := cfg.Prop
 	if cfg.Prop == "C10" {
-		r.Explanation = "Decides structural necessary conditions of C10 on events/batcher, over the events along the inlined paths of Subscribe, the queue callback, Close and the forwarder goroutines (constructs resolved by role): (M1) the subscriber list and the id counter only under the Batcher mutex; (M2) every send into a subscriber buffer made under the lock sits in a select with a channel the subscriber's forwarder closes BEFORE it takes the lock on its way out (otherwise a subscriber leaving with a full buffer wedges the delivery, every later one and Close); (M3) the close channel — the way out of the fan-out select — is closed by Close without the lock and without first waiting for the queue processor that may be stuck in that select; (M4) subscribers are registered only after the closed flag was read false under the lock, forwarder goroutines are added to the wait group under the lock before they start and call Done on every exit, every wait in them has a shutdown case (subscriber context and close channel), each closes its subscriber channel and takes the lock to deregister on every exit, Close marks closed, passes the lock barrier, then waits on every path; (M5) Batch enqueues the key through Processor.Enqueue with due time clock.Now()+interval, the callback offers the item's value to every entry of the subscriber list in one critical section, and nothing is sent unless the closed flag was read false; the forwarder passes on exactly what it received. NOT decided: the per-key debounce law and delivery order over all timelines (C06 covers the queue's own necessary conditions)."
+		r.Explanation = "Decides structural necessary conditions of C10 on events/batcher, over the events along the inlined paths of Subscribe, the queue callback, Close and the forwarder goroutines (constructs resolved by role): (M1) the subscriber list and the id counter only under the Batcher mutex; (M2) every send into a subscriber buffer made under the lock sits in a select with a channel the subscriber's forwarder closes BEFORE it takes the lock on its way out (otherwise a subscriber leaving with a full buffer wedges the delivery, every later one and Close); (M3) the close channel — the way out of the fan-out select — is closed by Close without the lock and without first waiting for the queue processor that may be stuck in that select; (M4) subscribers are registered only after the closed flag was read false under the lock, forwarder goroutines are added to the wait group under the lock before they start and call Done on every exit, every wait in them has a shutdown case (subscriber context and close channel), each closes its subscriber channel and takes the lock to deregister on every exit, Close marks closed, passes the lock barrier, then waits on every path; (M5) Batch enqueues the key through Processor.Enqueue with due time clock.Now()+interval, the callback offers the item's value to every entry of the subscriber list in one critical section of the exclusively held lock, by a blocking send (no default, no timeout: the only alternatives are the subscriber's release channel and the close channel), and nothing is sent unless the closed flag was read false; the forwarder passes on exactly what it received. NOT decided: the per-key debounce law and delivery order over all timelines (C06 covers the queue's own necessary conditions)."
 	} else {
-		r.Explanation = "Decides structural necessary conditions of C11 on events/broadcaster, over the events along the inlined paths of Subscribe, Broadcast, Close and the forwarder goroutines (constructs resolved by role): (M1) the subscriber list and the id counter only under the Broadcaster mutex and the whole fan-out loop of Broadcast runs in one critical section (necessary for one common order); (M2) every send into a subscriber buffer under the lock selects on a channel the forwarder closes before taking the lock; (M3) the close channel is closed by Close without the lock a blocked Broadcast holds; (M4) subscribers registered only after the closed flag was read false under the lock, forwarders tracked (Add under the lock before go, Done on every exit), shutdown case in every wait, lock-protected deregistration on every exit, Close marks closed, passes the lock barrier and waits; (M5) Broadcast delivers its argument to every entry of the subscriber list and sends nothing unless the closed flag was read false; forwarders pass on exactly what they received. NOT decided: exactly-once and common order as runtime facts over all histories."
+		r.Explanation = "Decides structural necessary conditions of C11 on events/broadcaster, over the events along the inlined paths of Subscribe, Broadcast, Close and the forwarder goroutines (constructs resolved by role): (M1) the subscriber list and the id counter only under the Broadcaster mutex and the whole fan-out loop of Broadcast runs in one critical section (necessary for one common order); (M2) every send into a subscriber buffer under the lock selects on a channel the forwarder closes before taking the lock; (M3) the close channel is closed by Close without the lock a blocked Broadcast holds; (M4) subscribers registered only after the closed flag was read false under the lock, forwarders tracked (Add under the lock before go, Done on every exit), shutdown case in every wait, lock-protected deregistration on every exit, Close marks closed, passes the lock barrier and waits; (M5) Broadcast delivers its argument to every entry of the subscriber list, holding the lock exclusively (not in read mode) and by a blocking send whose only alternatives are the subscriber's release channel and the close channel, and sends nothing unless the closed flag was read false; forwarders pass on exactly what they received. NOT decided: exactly-once and common order as runtime facts over all histories."
 	}
 	r.Assumptions = append(r.Assumptions, "type-based lock and channel identity: all subscribers' buffers are one abstract channel", "subscriber contexts and caller-owned channels can always fire/are drained by their owners", "helpers are followed through static calls, defer and go of functions of the same package; function values stored in variables are not followed")
 	r.Rule(pre+".M1-guard", "subscriber list / id counter only under the component lock", 3)
@@ -608,7 +608,7 @@ func checkFanout(c *Ctx, cfg fanoutCfg) {
 	r.Rule(pre+".M2-departure-release", "sends into subscriber buffers under the lock select on a channel closed by the departing forwarder before it takes the lock", 1)
 	r.Rule(pre+".M3-close-escape", "the close channel can be closed without the lock held by a blocked fan-out and without waiting for it", 1)
 	r.Rule(pre+".M4-forwarders", "forwarders tracked by the wait group, with shutdown cases, deregistering under the lock; Close marks closed, passes the lock barrier, then waits", 6)
-	r.Rule(pre+".M5-delivery", "the value is offered to every subscriber entry; nothing sent once closed", 2)
+	r.Rule(pre+".M5-delivery", "the value is offered to every subscriber entry by a blocking send whose only ways out are departure and Close, under the exclusively held lock; nothing sent once closed", 3)
 
 	ro := fanResolve(c, cfg)
 	e := c.Locks()
@@ -911,6 +911,7 @@ func fanClose(c *Ctx, ro *fanRoles, wg *WaitGraph, nSend, nEscape int) {
 
 type fanDelState struct {
 	held      bool
+	shared    bool // held in read mode only (RWMutex.RLock)
 	notClosed bool
 }
 
@@ -949,6 +950,15 @@ func fanDelivery(c *Ctx, ro *fanRoles, releaseFields []string, takesLock bool, f
 		}
 		return false
 	}
+	// where (through which call sites) the sends and unlocks of the fan-out path happen
+	chainOf := func(cx *EvCtx[fanDelState], in ssa.Instruction) []ssa.Instruction {
+		out := []ssa.Instruction{in}
+		for f := cx.F; f != nil && f.site != nil; f = f.parent {
+			out = append(out, f.site.(ssa.Instruction))
+		}
+		return out
+	}
+	var sendChains, unlockChains [][]ssa.Instruction
 	m2seen := map[ssa.Instruction]bool{}
 	m2rule := pre + ".M2-departure-release"
 	m2 := func(cx *EvCtx[fanDelState], in ssa.Instruction, s fanDelState) {
@@ -962,6 +972,45 @@ func fanDelivery(c *Ctx, ro *fanRoles, releaseFields []string, takesLock bool, f
 		if !isSel {
 			r.Violation(m2rule, construct, p.Pos(instrPos(in)), "unconditional send into a subscriber buffer while holding the lock: a stalled or departed subscriber blocks it forever")
 			return
+		}
+		// M5: the offer must not be lossy: no default, and every alternative is a departure / shutdown signal
+		lossy, unkCase := "", ""
+		if !sel.Blocking {
+			lossy = "the send into the subscriber's buffer is non-blocking (the select has a default): a subscriber with a full buffer silently loses the value while prompt subscribers get it (not exactly-once, subscribers see different sequences)"
+		}
+		for _, st := range sel.States {
+			id := chanIdent(cx.Resolve(st.Chan).V)
+			if st.Dir == types.SendOnly {
+				if id != ro.bufCh && lossy == "" {
+					unkCase = "the select also sends on " + shortCh(id)
+				}
+				continue
+			}
+			isRelease := id == ro.closeCh
+			for _, rf := range releaseFields {
+				if id == rf {
+					isRelease = true
+				}
+			}
+			if strings.HasPrefix(id, "field:"+ro.entryT+".") {
+				isRelease = true // a per-subscriber channel (judged by M2)
+			}
+			switch {
+			case isRelease:
+			case strings.HasPrefix(id, "timer:") || strings.HasPrefix(id, "call:After"):
+				lossy = "the send into the subscriber's buffer can be abandoned on a timeout (" + shortCh(id) + "): a slow subscriber silently loses the value"
+			default:
+				unkCase = "the select can abandon the send on " + shortCh(id) + ", which is neither the subscriber's release channel nor the close channel"
+			}
+		}
+		construct5 := FuncName(p, in.Parent()) + " offer is not lossy"
+		switch {
+		case lossy != "":
+			r.Violation(pre+".M5-delivery", construct5, p.Pos(instrPos(in)), lossy)
+		case unkCase != "":
+			r.Undecide("%s: %s — whether the value can be lost for a subscriber that stays subscribed is not decided", construct5, unkCase)
+		default:
+			r.OK(pre+".M5-delivery", construct5, p.Pos(instrPos(in)), "blocking send; the only ways out are the subscriber's departure and Close")
 		}
 		ok := !takesLock
 		for _, st := range sel.States {
@@ -995,7 +1044,11 @@ func fanDelivery(c *Ctx, ro *fanRoles, releaseFields []string, takesLock bool, f
 			return
 		}
 		nSend++
+		sendChains = append(sendChains, chainOf(cx, in))
 		m2(cx, in, s)
+		if s.held && s.shared && whySend == "" {
+			whySend = "the value is sent into a subscriber buffer at " + p.Pos(instrPos(in)) + " while " + shortID(ro.lockID) + " is held in read (shared) mode only: two concurrent fan-outs interleave their per-subscriber loops and subscribers see different orders"
+		}
 		if !s.held && whySend == "" {
 			whySend = "the value is sent into a subscriber buffer at " + p.Pos(instrPos(in)) + " without holding " + shortID(ro.lockID) + ": concurrent fan-outs interleave and subscribers see different orders"
 		}
@@ -1026,6 +1079,10 @@ func fanDelivery(c *Ctx, ro *fanRoles, releaseFields []string, takesLock bool, f
 		case ssa.CallInstruction:
 			if id, kind, ok := evLockOp(cx, e, v); ok && id == ro.lockID {
 				s.held = kind == opLock || kind == opRLock
+				s.shared = kind == opRLock
+				if !s.held {
+					unlockChains = append(unlockChains, chainOf(cx, in))
+				}
 			}
 		}
 		return s, true
@@ -1143,6 +1200,23 @@ func fanDelivery(c *Ctx, ro *fanRoles, releaseFields []string, takesLock bool, f
 					}
 				}
 			}
+		}
+		// also through function values: the explored sends / unlocks whose call chain passes through the loop
+		through := func(chains [][]ssa.Instruction) ssa.Instruction {
+			for _, ch := range chains {
+				for _, in := range ch {
+					if in.Parent() == fan && inLoop[in.Block()] {
+						return ch[0]
+					}
+				}
+			}
+			return nil
+		}
+		if through(sendChains) != nil {
+			hasSend = true
+		}
+		if u := through(unlockChains); u != nil && why == "" {
+			why = "the lock is released inside the fan-out loop (at " + p.Pos(instrPos(u)) + "): concurrent fan-outs interleave and subscribers see different orders"
 		}
 		if !hasSend && why == "" {
 			why = "no send into the subscriber buffers inside the loop over the subscriber list"
